@@ -57,7 +57,7 @@ out.append('\nDetails (what was run and observed) are in each `seeded/<id>/meta.
 nmiss = sum(1 for l in out if l.endswith('| missed, rule added |'))
 ncaught = sum(1 for l in out if l.endswith('| caught |'))
 out.append('Of the %d kept seeds, %d were caught by the checks as they stood when the seed arrived and %d were missed and led to a new rule. Duplicates of an earlier seed '
-           '(same change found again by another agent: C16 x3 = C17, C24b = C25, C36b = C36) were discarded after checking that they are reported.\n' % (nmiss + ncaught, ncaught, nmiss))
+           '(same change found again by another agent: C16 x3 and C17b = C17, C24b = C25, C36b = C36, C37b = C37, C21b = C19) were discarded after checking that they are reported.\n' % (nmiss + ncaught, ncaught, nmiss))
 out.append('### 8.1 Hand-mutation probes\n')
 out.append('The seeds test one breakage per agent run. In between, the anchored functions of a property were mutated by hand, ten or so mutants at a time '
            '(`tools/mut_probe.py <spec.json> <ids>`: each edit is analysed through the VFS overlay, /repo is not touched), and every silent mutant was read: a mutant that '
